@@ -87,6 +87,57 @@ def run_history(seq, caching):
     return bad
 
 
+BASES = ['Reservoir Depth, 3\nNumber of Production Wells, 3\nGradients, 50, 40, 30\n', 'Reservoir Depth, 4\nGradients, 50, 40, 30\n']
+PARAMS = [None, {'Gradient 1': 60}, {'Gradient 1': 70}, {'Reservoir Depth': 3}]
+
+
+def run_params_history(seq, caching):
+    """requests built from a base file AND override parameters (the client's documented way to vary a case): every request kind is a
+    (base file, params) pair; the result must be computed from exactly that base's lines followed by exactly those overrides."""
+    d = tempfile.mkdtemp(prefix='symx_c08p_')
+    cwd, argv = os.getcwd(), sys.argv
+    bad = []
+    made = []
+    try:
+        bases = []
+        for i, txt in enumerate(BASES):
+            bases.append(os.path.join(d, f'base{i}.txt'))
+            with open(bases[-1], 'w') as f:
+                f.write(txt)
+        client = GeophiresXClient(enable_caching=caching)
+        stub = type('Stub', (), {'main': staticmethod(stub_main)})
+        with shim.shadow((GC, 'geophires', stub)):
+            for step, ri in enumerate(seq):
+                bi, pi = divmod(ri, len(PARAMS))
+                params = PARAMS[pi]
+                ref = os.path.join(d, 'reference.txt')
+                with open(ref, 'w') as f:
+                    f.write(BASES[bi] + ''.join(f'{k}, {v}\n' for k, v in (params or {}).items()))
+                want = effective(ref)
+                req = GeophiresInputParameters(from_file_path=bases[bi], params=params) if params else GeophiresInputParameters(from_file_path=bases[bi])
+                if params:
+                    made.append(req.as_file_path())
+                r = client.get_geophires_result(req)
+                got = digest_of_result(r)
+                if got != want:
+                    bad.append({'step': step, 'request': {'base file': BASES[bi], 'params': params}, 'result computed from': got, 'request means': want})
+                if os.getcwd() != cwd or sys.argv is not argv:
+                    bad.append({'step': step, 'cwd/argv not restored': os.getcwd()})
+                    os.chdir(cwd)
+                    sys.argv = argv
+    finally:
+        os.chdir(cwd)
+        sys.argv = argv
+        for pth in made:
+            for x in (pth, str(pth).replace('.txt', '.out')):
+                try:
+                    os.unlink(x)
+                except OSError:
+                    pass
+        shutil.rmtree(d, ignore_errors=True)
+    return bad
+
+
 HIP_CONTENTS = ['Reservoir Temperature, 250\nReservoir Area, 55\n', 'Reservoir Temperature, 250\nReservoir Area, 110\n',
                 'Reservoir Area, 55\nReservoir Temperature, 250\n', 'Reservoir Temperature, 250\nReservoir Area, 55\nReservoir Area, 110\n']
 
@@ -139,20 +190,24 @@ def run_hip_history(seq, caching):
 def units(tier):
     us = [{'harness': 'client-real-files', 'H': H, 'caching': c} for H in ((2,) if tier == 'quick' else (2, 3)) for c in (True, False)]
     us += [{'harness': 'client-real-files', 'client': 'hip', 'H': 2 if tier == 'quick' else 3, 'caching': True}]
+    us += [{'harness': 'client-real-files', 'requests': 'base file + params', 'H': 2, 'caching': c} for c in ((True,) if tier == 'quick' else (True, False))]
     return us
 
 
 def run_unit(unit):
     H, caching = unit['H'], unit['caching']
     hip = unit.get('client') == 'hip'
-    family = HIP_CONTENTS if hip else CONTENTS
+    byparams = bool(unit.get('requests'))
+    family = HIP_CONTENTS if hip else (list(range(len(BASES) * len(PARAMS))) if byparams else CONTENTS)
     cfg = {'harness': 'client-real-files', 'client': 'HipRaXClient' if hip else 'GeophiresXClient', 'H': H, 'caching': caching, 'contents': len(family)}
+    if byparams:
+        cfg['requests'] = f'(base file, params) pairs: {len(BASES)} base files x {PARAMS}'
     log = harness.UnitLog(cfg)
     for seq in itertools.product(range(len(family)), repeat=H):
         log['paths'] += 1
         log['reachable'] += 1
         log['obligations'] += 1
-        bad = run_hip_history(seq, caching) if hip else run_history(seq, caching)
+        bad = run_hip_history(seq, caching) if hip else (run_params_history(seq, caching) if byparams else run_history(seq, caching))
         if not bad:
             log['discharged'] += 1
             continue
